@@ -328,7 +328,7 @@ func (m *model) wantAssoc() []string {
 
 const (
 	clsStarts    = "starts"     // stream task: starting it always succeeds
-	clsSyncFail  = "sync-fail"  // batch task querying a db.rp it has no grant for: StartBatching refuses
+	clsSyncFail  = "sync-fail"  // batch task querying a db.rp it has no grant for (StartBatching refuses); task without any dbrp
 	clsAsyncFail = "async-fail" // batch task with nowhere to query (no InfluxDB cluster): starts, then dies by itself
 )
 
@@ -337,6 +337,11 @@ var batchFrom = regexp.MustCompile(`FROM "([^"]+)"\."([^"]+)"`)
 // startClass says what enabling a task with this definition does on a server without an
 // InfluxDB cluster. It depends on the script alphabet of the generator only.
 func startClass(script string, dbrps []DBRP) string {
+	if len(dbrps) == 0 {
+		// TaskMaster.StartTask: "task does contain any dbrps" (a templated task whose
+		// template dropped its dbrp statement)
+		return clsSyncFail
+	}
 	if !strings.Contains(script, "batch") {
 		return clsStarts
 	}
